@@ -245,6 +245,12 @@ def handle(line: str) -> str:
     if not words:
         return "BAD-REQUEST"
     cmd = words[0]
+    if cmd == "STATE":
+        # interpreter-wide settings a library call could leave changed (a parse is a function of its arguments: it must not)
+        import sys as _s, decimal as _d, warnings as _w, gc as _g, locale as _l
+        return "OK reclimit=%d cwd=%s path=%d prec=%d warn=%d gc=%s switch=%r locale=%s" % (
+            _s.getrecursionlimit(), os.getcwd(), len(_s.path), _d.getcontext().prec,
+            len(_w.filters), _g.isenabled(), _s.getswitchinterval(), _l.setlocale(_l.LC_ALL))
     if cmd == "LEX":
         mb = words[1] == "1"
         if int(words[2]) != flags:
@@ -298,7 +304,17 @@ def handle(line: str) -> str:
             finally:
                 if _main:
                     signal.alarm(0)
-            return "OK " + pydump.dump(v)
+            try:
+                return "OK " + pydump.dump(v)
+            except RecursionError:
+                # the dumper (ours, not the library's) recurses over the tree: a flat chain of 1500 operands is a 1500-deep left-nested tree
+                import sys as _s
+                lim = _s.getrecursionlimit()
+                try:
+                    _s.setrecursionlimit(200000)
+                    return "OK " + pydump.dump(v)
+                finally:
+                    _s.setrecursionlimit(lim)
         except Exception as e:  # noqa
             return "BAD-REQUEST " + repr(e)
     if cmd == "PRINT":
